@@ -68,7 +68,7 @@ def run(tier, deadline):
            "bfs": {"depth": depth, "handler_values": nh, "max_threads": 3, "model_states_x_lib_static_hash": st["states"], "histories_executed": st["histories"]},
            "linearizability": {"threads": 2, "ops_per_thread": [1, 2], "op_sets": st["lin_op_sets"], "schedules": st["schedules"], "preemption_bound": 2 if tier == "quick" else 3, "max_scheduling_points": st["max_points"]},
            "evaluations": st["histories"] + st["schedules"], "distinct_nontrivial": st["states"] + st["lin_states"],
-           "rule": f"client application (engine/clients/handlerclient.c) built from the public headers for gcc and clang x optimisation levels: first and later registrations of all four setters, a foldable and a volatile comparison of the returned pointer with NULL must agree, the save/restore idiom leaves the thread's registration working. third BFS alphabet: handler values NULL, abort_handler_s (pre-empted by the harness so that its invocation is observed), H1 (thorough: ignore_handler_s named explicitly), depth {d3}, up to {mt3} threads. second BFS alphabet: handlers NULL, HJ (a handler that leaves through longjmp), H1 (thorough: H2), op call(f) = one of 2 (thorough: 6) calls that violate nothing (wcsnatcmp_s with folding, sprintf_s; thorough: wcsicmp_s, wcsnorm_s, strcpy_s, memset_s) which must fail nothing, invoke nothing and change no registration; configurations (depth, handler values, calls, threads) = {cfg2}; histories that differ in who has left a handler by longjmp or made which call are kept apart when de-duplicating. " + "BFS: every (thread, op) extension of every history that reached a new (model state, hash of the library's static bytes) pair, each history executed from the pristine library image on fresh real threads; oracle per step: identity of the handler that ran, thread, code, return of registrations vs the 15-line model (child inheritance left open). Access level: every interleaving of 2 threads at static-access granularity up to the preemption bound; oracle: a model-accepted sequential order consistent with real time exists",
+           "rule": f"client application (engine/clients/handlerclient.c) built from the public headers for gcc and clang x optimisation levels: first and later registrations of all four setters, a foldable and a volatile comparison of the returned pointer with NULL must agree, the save/restore idiom leaves the thread's registration working; a thread that survives the library's own abort_handler_s twice (SIGABRT caught, siglongjmp) finds every registration as it was; a string violation on an object of 256 MiB + 16 bytes of known size invokes the string handler once and the memory handler not at all. third BFS alphabet: handler values NULL, abort_handler_s (pre-empted by the harness so that its invocation is observed), H1 (thorough: ignore_handler_s named explicitly), depth {d3}, up to {mt3} threads. second BFS alphabet: handlers NULL, HJ (a handler that leaves through longjmp), H1 (thorough: H2), op call(f) = one of 2 (thorough: 6) calls that violate nothing (wcsnatcmp_s with folding, sprintf_s; thorough: wcsicmp_s, wcsnorm_s, strcpy_s, memset_s) which must fail nothing, invoke nothing and change no registration; configurations (depth, handler values, calls, threads) = {cfg2}; histories that differ in who has left a handler by longjmp or made which call are kept apart when de-duplicating. " + "BFS: every (thread, op) extension of every history that reached a new (model state, hash of the library's static bytes) pair, each history executed from the pristine library image on fresh real threads; oracle per step: identity of the handler that ran, thread, code, return of registrations vs the 15-line model (child inheritance left open). Access level: every interleaving of 2 threads at static-access granularity up to the preemption bound; oracle: a model-accepted sequential order consistent with real time exists",
            "timed_out_jobs": len(timed_out)}
     assumptions = ["the executable's ignore_handler_s pre-empts the library's default handler (symbol interposition), so the default is observable",
                    "pristine 'never registered' state is recreated by restoring the library's .data/.bss image and using fresh threads (fresh TLS)"]
